@@ -264,7 +264,10 @@ Definition compute_label_rank (children : list cs) (labels : list Z) : res Z :=
 
 (* ------------------------------------------------------------------------------
    children_shape_ranks(rank, n)                                   (1161-1196)
-   The for/else: the error is raised only when no partition was selected AND n != 1. *)
+   The for/else (after fix 7829e32): when no partition was selected the error is raised
+   unless n == 1 and the remaining rank is 0 (the single one-leaf shape).
+   [children_shape_ranks_pinned] below is the pre-fix variant (error skipped for every
+   rank when n == 1), kept only as the historical record of finding F13. *)
 Fixpoint csr_find (parts : list (list Z)) (rank : Z) : res (option (list Z) * Z) :=
   match parts with
   | [] => Ok (None, rank)
@@ -293,6 +296,18 @@ Fixpoint csr_unrank_groups (gs : list (list Z)) (next : nat) (part : list Z) (ra
   end.
 
 Definition children_shape_ranks (rank n : Z) : res (list Z * list Z) :=
+  do ps <- partitions n;
+  do f <- csr_find ps rank;
+  let '(sel, rank') := f in
+  do part <- match sel with
+             | Some p => Ok p
+             | None => if (n =? 1) && (rank' =? 0) then Ok [] else Err E_RANK
+             end;
+  do child_ranks <- csr_unrank_groups (group_partition part) 0 part rank';
+  Ok (part, child_ranks).
+
+(* the pinned (pre-fix, commit 380c75d) behaviour:  else: if n != 1: raise *)
+Definition children_shape_ranks_pinned (rank n : Z) : res (list Z * list Z) :=
   do ps <- partitions n;
   do f <- csr_find ps rank;
   let '(sel, rank') := f in
